@@ -13,8 +13,8 @@ REAL = ["train_* routines", "soft_target_net_update / hard_target_net_update", "
 STUB = ["environment (SimEnv)", "sampler", "logger (ProbeLogger)"]
 ASSUMPTIONS = ["targets created inside a routine are observable from their first record_epoch; earlier only frame conditions on harness-held modules apply",
                "float32 Polyak recomputation agrees with the library to 4e-6 relative"]
-TIERS = {"quick": {"runs": 63}, "thorough": {"runs": 1500}}
-REQUIRED = ["soft_updates_checked", "hard_updates_checked", "tau_0", "tau_1"]
+TIERS = {"quick": {"runs": 70}, "thorough": {"runs": 1500}}
+REQUIRED = ["soft_updates_checked", "hard_updates_checked", "tau_0", "tau_1", "online_unchanged_by_target_update"]
 REQUIRED_QUICK = ["soft_updates_checked", "hard_updates_checked"]
 SHRINK_LISTS = [["env", "script"]]
 SHRINK_INTS = []
@@ -22,7 +22,30 @@ CLAUSES = ["C06"]
 ADAPTERS = ["ddpg", "td3", "td3_lap", "sac", "nature_dqn", "ddqn", "ddqn_per", "td7", "mrq"]
 
 
+TWIN = ["ddpg", "td3", "td3_lap", "sac", "nature_dqn", "ddqn", "ddqn_per", "td7"]
+
+
 def make_plan(rng, tier, index):
+    if index % 7 == 6:
+        # C06.d twin: the same plan with target updates neutralised (tau=0 / huge delay); the ONLINE networks right
+        # after the first target update must be bit-identical in both runs (the update must not touch them)
+        name = TWIN[(index // 7) % len(TWIN)]
+        plan = trainplan.base_plan(rng, PROPERTY, [], name, T=rng.choice([14, 20]))
+        plan["monitor"] = True
+        plan["logger"] = True
+        plan["supply_targets"] = True  # targets must be observable from the first event on
+        plan["kind"] = "twin_online"
+        c = plan["cfg"]
+        c["learning_starts"] = rng.choice([2, 3, 5])
+        if "tau" in c:
+            c["tau"] = rng.choice([0.005, 0.3, 1.0])
+        if "use_checkpoints" in c:
+            c["use_checkpoints"] = False
+            c["target_delay"] = rng.choice([1, 2, 3])
+        if "target_update_frequency" in c:
+            c["target_update_frequency"] = rng.choice([2, 3, 5])
+            c["batch_size"] = 2
+        return plan
     name = ADAPTERS[index % len(ADAPTERS)]
     plan = trainplan.base_plan(rng, PROPERTY, CLAUSES, name, T=rng.choice([12, 20, 30]))
     plan["monitor"] = True
@@ -35,5 +58,49 @@ def normalise(plan):
     return plan
 
 
+def is_target(name):
+    return name.endswith("_target") or name.startswith("fixed_") or "checkpoint" in name
+
+
 def execute(plan):
-    return trainsim.execute(plan)
+    if plan.get("kind") != "twin_online":
+        return trainsim.execute(plan)
+    import json
+
+    from rlsim.core import Result
+    from rlsim.monitors import changed_from
+
+    res = Result()
+    site = "train_" + plan["adapter"]
+    a = trainsim.TrainRun(json.loads(json.dumps(plan)))
+    ra = a.run()
+    pb = json.loads(json.dumps(plan))
+    c = pb["cfg"]
+    if "tau" in c and plan["adapter"] != "td7":
+        c["tau"] = 0.0
+    if plan["adapter"] == "td7":
+        c["target_delay"] = 10**6
+    if "target_update_frequency" in c:
+        c["target_update_frequency"] = 10**6
+    b = trainsim.TrainRun(pb)
+    rb = b.run()
+    for r in (ra, rb):
+        for v in r.violations:
+            res.violate("C06.raise", site, v["detail"])
+    res.simt("env_steps", a.env.n_steps + b.env.n_steps)
+    sa, sb = a.snaps, b.snaps
+    j = next((i for i in range(1, min(len(sa), len(sb))) if any(is_target(n) for n in changed_from(sa[i - 1], sa[i]))), None)
+    res.log.add("first_target_update", j, [s.label for s in sa[:40]])
+    if j is None:
+        res.probe("twin_without_target_update")
+    elif sa[j].label != sb[j].label or sa[j].k != sb[j].k:
+        res.unchecked += 1
+    else:
+        online = [n for n in sa[j].leaves if not is_target(n) and n in sb[j].leaves]
+        diff = [n for n in online if sa[j].h(n) != sb[j].h(n)]
+        if diff:
+            res.violate("C06.d", site, f"iteration {sa[j].k}: with the target update neutralised (tau=0 / no sync) the online components {diff} differ right after the first target update; the update must leave the online networks unchanged")
+        else:
+            res.probe("online_unchanged_by_target_update")
+    res.signature = f"twin|{plan['adapter']}|{json.dumps(plan['cfg'], sort_keys=True)}"
+    return res
